@@ -74,6 +74,10 @@ def data(H, rng, big):
         X = c[rng.integers(0, 4, size=n)] + rng.integers(-1, 2, size=(n, m))
     else:
         X = H.lattice(rng, n, m, 8, kind)
+    if rng.random() < 0.2:
+        # uncentred data (absolute coordinates): squared norms about 1e8 times the squared distances, still exact in float64
+        X = X + rng.integers(8000, 12000, size=m)
+        kind = kind + "+offset"
     return X, kind
 
 
